@@ -404,6 +404,7 @@ class FakeQueue:
     def __init__(self, maxsize=0):
         self.items = []
         self.closed = False
+        self.delivered = set()
 
     def put(self, x):
         if self.closed:
@@ -411,6 +412,22 @@ class FakeQueue:
         self.items.append(x)
 
     def get(self):
+        cur = MP.get("current")
+        assign = MP.get("assign")
+        if assign is not None and cur is not None and getattr(cur.target, "__name__", "") == "_worker" and self is cur.args[3]:
+            # scripted delivery: item j (queue order) goes to worker assign[j]; afterwards the worker gets one poison pill
+            wid = cur.args[0]
+            for j, it in enumerate(self.items):
+                if it is None:
+                    continue
+                if j < len(assign) and j not in self.delivered and assign[j] == wid:
+                    self.delivered.add(j)
+                    return it
+            for j, it in enumerate(self.items):
+                if it is None and j not in self.delivered:
+                    self.delivered.add(j)
+                    return None
+            raise RuntimeError("shim: worker would block forever (no item and no pill left)")
         if not self.items:
             raise RuntimeError("shim: get() on an empty queue would block forever")
         return self.items.pop(0)
@@ -451,6 +468,8 @@ class FakeProcess:
             sched(self)
 
     def run_now(self):
+        prev = MP.get("current")
+        MP["current"] = self
         try:
             self.target(*self.args, **self.kwargs)
             self.exitcode = 0
@@ -459,6 +478,8 @@ class FakeProcess:
                 raise
             self.exitcode = 1
             self.error = e
+        finally:
+            MP["current"] = prev
 
     def join(self, timeout=None):
         if self.exitcode is None and not self.killed:
@@ -501,7 +522,42 @@ def load_helpers(repo="/repo"):
     src = open(f"{repo}/sketchnu/helpers.py").read()
     src = src.replace("from multiprocessing import get_context, Queue", "get_context = None; Queue = None").replace("import psutil", "psutil = None")
     m.__file__ = f"{repo}/sketchnu/helpers.py"
-    exec(compile(src, m.__file__, "exec"), m.__dict__)
+    import ast as _ast
+
+    class _F(_ast.NodeTransformer):
+        """log/exception texts: every {expression} of an f-string is still EVALUATED (so an exception raised while
+        building a message is kept) but not rendered -- rendering a symbolic number would force CrossHair to enumerate it"""
+        def visit_JoinedStr(self, node):
+            self.generic_visit(node)
+            exprs = [v.value for v in node.values if isinstance(v, _ast.FormattedValue)]
+            return _ast.copy_location(_ast.Call(func=_ast.Name(id="_shim_fmt", ctx=_ast.Load()), args=exprs, keywords=[]), node)
+    tree = _F().visit(_ast.parse(src, filename=m.__file__))
+    _ast.fix_missing_locations(tree)
+    m._shim_fmt = lambda *a: "msg"
+    exec(compile(tree, m.__file__, "exec"), m.__dict__)
+
+    class _TD:
+        def total_seconds(self):
+            return 1.0
+
+    class _DT:
+        @staticmethod
+        def now():
+            return _DT()
+
+        def __sub__(self, o):
+            return _TD()
+    m.datetime = _DT
+
+    class _Logger:
+        def debug(self, *a): pass
+        info = warning = critical = error = fatal = debug
+
+    class _Logging:
+        @staticmethod
+        def getLogger(name=None):
+            return _Logger()
+    m.logging = _Logging
     m.get_context = get_context
     m.Queue = FakeQueue
     m.sleep = _sleep
